@@ -162,3 +162,48 @@ func verif_C01_server() {
 	verifReach("C01.server-end")
 }
 func verif_C01_two_messages() { verifTwoMessages("C01") }
+
+// verif_C01_limited: "does not depend on how the stream is split into network
+// segments" with a line-length limit in force. MaxLineLength is 24 - the longest
+// command line of the prelude (RCPT TO:<r@v> CRLF, 14 octets) fits, and so does
+// every line of the message - and the message has three lines of 9..11 octets
+// (CRLF included; one octet of each arbitrary), so that any two ADJACENT lines
+// together exceed what one line may have. The stream is cut once at an ARBITRARY
+// offset - between a CR and its LF included - or delivered octet by octet.
+// The backend reads the body exactly and the message is accepted.
+func verif_C01_limited() {
+	x, y, z := nondetByte(), nondetByte(), nondetByte()
+	for _, c := range []byte{x, y, z} {
+		assume(c != '\r' && c != '\n' && c != '.')
+	}
+	lines := "abcdefg" + string([]byte{x}) + "\r\n" + "hij" + string([]byte{y}) + "klmnopq\r\n" + string([]byte{z}) + "stuvwx\r\n"
+	stream := lines + ".\r\n"
+	var got []byte
+	var rerr error
+	be := &vbackend{}
+	be.dataFn = func(_ *vsession, r io.Reader) error {
+		got, rerr = verifReadAll(r, 5)
+		if rerr == io.EOF {
+			return nil
+		}
+		return rerr
+	}
+	s, lg := verifServer(be)
+	s.MaxLineLength = 24
+	head := "EHLO c\r\nMAIL FROM:<s@v>\r\nRCPT TO:<r@v>\r\nDATA\r\n"
+	in := []byte(head + stream)
+	vc := &vconn{in: in, final: io.EOF}
+	if nondetBool() {
+		vc.seg = 1
+	} else {
+		vc.cuts = []int{nondetInt(len(head), len(in)-1)}
+	}
+	c := newConn(vc, s)
+	s.handleConn(c)
+	verifSettle()
+	reps, wf := verifParseReplies(vc.out)
+	verifObserve("c01lim", x, y, z, vc.seg, len(got), rerr == io.EOF, len(reps))
+	verifAssert(rerr == io.EOF && string(got) == lines, "C01.limited-body-exact-whatever-the-segmentation")
+	verifAssert(wf && len(reps) == 6 && reps[5].code == 250 && lg.lines == 0, "C01.limited-message-accepted")
+	verifReach("C01.limited-end")
+}
